@@ -94,7 +94,11 @@ class CFormatter(Formatter):
 
     @override(Formatter)
     def format_str_value(self, value: str) -> str:
-        return '"{0}"'.format(self.escape_string_literal(value))
+        escaped = self.escape_string_literal(value)
+        if "??" in escaped:
+            # Keep `??x` from being read as a trigraph (enabled by -std=c99).
+            escaped = escaped.replace("?", "\\?")
+        return '"{0}"'.format(escaped)
 
     @override(Formatter)
     def format_int_value(self, value: int) -> str:
